@@ -10,7 +10,8 @@ for d in seeded/*/; do
   if [ -n "$FILTER" ] && ! echo " $FILTER " | grep -q " $prop "; then continue; fi
   D=$(mktemp -d /tmp/vfrg.XXXXXX)
   rsync -a --exclude .git --exclude __pycache__ /repo/ "$D/"
-  if ! (cd "$D" && (git apply "/verif/$d/patch.diff" 2>/dev/null || patch -p1 -s < "/verif/$d/patch.diff" >/dev/null 2>&1)); then
+  PATCH="/verif/$d/patch.diff"; [ -f "/verif/$d/patch.rebased.diff" ] && PATCH="/verif/$d/patch.rebased.diff"   # same change, re-cut after a repository fix moved its context
+  if ! (cd "$D" && (git apply "$PATCH" 2>/dev/null || patch -p1 -s --fuzz=3 < "$PATCH" >/dev/null 2>&1)); then
     echo "$id PATCH-DOES-NOT-APPLY (repository moved on)"; rm -rf "$D"; continue
   fi
   out=$(VERIF_REPO="$D" ./check "$prop" --tier ${TIER:-quick} 2>&1); rc=$?
